@@ -718,7 +718,22 @@ async fn run_scenario(sc: Scenario, tr: Transport, n: Cut) -> Outcome {
         Ok(s) => s,
         Err(e) => bail!(e),
       };
-      tokio::time::sleep(settle + Duration::from_millis(if sty == "PUB" { 100 } else { 0 })).await;
+      tokio::time::sleep(settle).await;
+      if sty == "PUB" {
+        // a PUB drops what it sends before the subscription has arrived: probe until one gets through
+        let mut through = false;
+        for _ in 0..250 {
+          let _ = sender.send(Msg::from_static(b"probe")).await;
+          if let Ok(Ok(_)) = tokio::time::timeout(Duration::from_millis(20), receiver.recv()).await {
+            through = true;
+            break;
+          }
+        }
+        if !through {
+          bail!("the subscription never became effective".into());
+        }
+        while let Ok(Ok(_)) = tokio::time::timeout(Duration::from_millis(150), receiver.recv()).await {}
+      }
       let frames = if matches!(sc, Scenario::RepRecvArrival | Scenario::ReqRecvArrival) { 1 } else { 3 };
       if sc == Scenario::ReqRecvArrival {
         // REQ (receiver here) has to send its request first; the REP answers later
@@ -787,7 +802,9 @@ async fn run_scenario(sc: Scenario, tr: Transport, n: Cut) -> Outcome {
           // strict alternation: exactly one recv is valid here, and it has happened
           break;
         }
-        match tokio::time::timeout(Duration::from_millis(400), receiver.recv()).await {
+        // nothing seen yet of a message that was sent: absence is only concluded after a long wait
+        let patience = if taken.is_empty() && rest.is_empty() { 6000 } else { 400 };
+        match tokio::time::timeout(Duration::from_millis(patience), receiver.recv()).await {
           Ok(Ok(m)) => rest.push(m.data().unwrap_or(&[]).to_vec()),
           Ok(Err(e)) => {
             if stack::err_kind(&e) == "invalid_state" {
